@@ -85,7 +85,7 @@ func New(opt Options, w *trace.Writer) (*Driver, error) {
 // after which the code under test blocks for good: the id of the input is in the cursor file).
 var progress atomic.Int64 //nolint:gochecknoglobals
 
-const stallLimit = 90 * time.Second
+const stallLimit = 45 * time.Second
 
 // Watchdog starts the stall watchdog of the driver process.
 func Watchdog() {
